@@ -93,24 +93,35 @@ class SBytes:
         return self.pieces[concretize(i)]
 
     def eq(self, o):
-        """z3 Bool: byte-wise equality (structural on blobs)."""
+        """z3 Bool that implies byte-wise equality.  Blobs are uninterpreted, so they
+        are compared structurally (same source, offset, length); where the two
+        sides are structured differently the condition requires the unmatched blob
+        to be empty (sufficient, and necessary as far as opaque content can be known)."""
         o = SBytes.lift(o)
         a, b = normalise(self.pieces), normalise(o.pieces)
-        if len(a) != len(b):
-            if not any(isinstance(p, Blob) for p in a + b):
-                return z3.BoolVal(False)
-            raise Unsupported("comparison of differently structured opaque bytes")
         conj = []
-        for x, y in zip(a, b):
-            if isinstance(x, Blob) != isinstance(y, Blob):
-                raise Unsupported("comparison of differently structured opaque bytes")
-            if isinstance(x, Blob):
-                if x.src != y.src:
-                    raise Unsupported("comparison of blobs from different sources")
+        i = j = 0
+        while i < len(a) or j < len(b):
+            x = a[i] if i < len(a) else None
+            y = b[j] if j < len(b) else None
+            bx, by = isinstance(x, Blob), isinstance(y, Blob)
+            if bx and by and x.src == y.src:
                 conj.append(zint(x.off) == zint(y.off))
                 conj.append(zint(x.ln) == zint(y.ln))
+                i += 1
+                j += 1
+            elif bx:
+                conj.append(zint(x.ln) == 0)
+                i += 1
+            elif by:
+                conj.append(zint(y.ln) == 0)
+                j += 1
+            elif x is None or y is None:
+                return z3.BoolVal(False)
             else:
                 conj.append(zint(x) == zint(y))
+                i += 1
+                j += 1
         return z3.And(*conj) if conj else z3.BoolVal(True)
 
     def __eq__(self, o):
